@@ -139,6 +139,11 @@ func tail(b []byte, n int) []byte {
 	return b
 }
 
+// stepBoundFor is the logical termination bound: every non-halting instruction costs >= 1 gas and every
+// frame (entered by an instruction that costs >= 32 gas) ends with at most one free halting instruction,
+// so an execution with g gas dispatches fewer than g + g/32 + 4096 instructions.
+func stepBoundFor(g uint64) uint64 { return g + g/32 + 4096 }
+
 // ---------------------------------------------------------------------------------------------
 // family seq: token sequences
 
@@ -148,7 +153,7 @@ func seqProg(ts []int, cb combo) *prog {
 	if cb.tiny {
 		p.gas = gasTinySeq
 	}
-	p.stepBound = p.gas + 4096
+	p.stepBound = stepBoundFor(p.gas)
 	return p
 }
 
@@ -249,7 +254,7 @@ func runSingles() {
 			if cb.tiny {
 				p.gas = gasTinySeq
 			}
-			p.stepBound = p.gas + 4096
+			p.stepBound = stepBoundFor(p.gas)
 			if runProgram(c, p, func(iset int, f finding) (string, *prog) { return classFor(c, p, iset, f, "ops="+opTable[i].name), nil }) {
 				nt = true
 			}
@@ -283,7 +288,7 @@ func runSingles() {
 		} else { // SWAPk: top <-> (k+1)-th
 			exp = []string{"status=success", fmt.Sprintf("ret32[0]=%x", 0x54-k), fmt.Sprintf("ret32[%d]=%x", k, 0x54)}
 		}
-		p := &prog{family: "stackdump", name: opTable[op].name, code: code, gas: gasAmple, preludeEnd: start, stepBound: gasAmple + 4096, expect: exp}
+		p := &prog{family: "stackdump", name: opTable[op].name, code: code, gas: gasAmple, preludeEnd: start, stepBound: stepBoundFor(gasAmple), expect: exp}
 		atomic.AddInt64(&nPrograms, 1)
 		if runProgram(c, p, func(iset int, f finding) (string, *prog) {
 			return classFor(c, p, iset, f, "ops="+opTable[op].name), nil
@@ -424,7 +429,7 @@ func runSweep() {
 			code, start := wrap(sweepBody(sc.op, sc.operands), nil)
 			p := &prog{family: "sweep", name: opTable[sc.op].name + "(" + strings.Join(names, ",") + ")", code: code, input: inputs[cb.in], gas: gasAmple, value: 5,
 				preludeEnd: start, tinyGas: cb.tiny}
-			p.stepBound = p.gas + 4096
+			p.stepBound = stepBoundFor(p.gas)
 			if runProgram(c, p, func(iset int, f finding) (string, *prog) {
 				return classFor(c, p, iset, f, "ops="+opTable[sc.op].name), nil
 			}) {
@@ -463,7 +468,7 @@ func runRaw() {
 			if cb.tiny {
 				p.gas = gasTinyRaw
 			}
-			p.stepBound = p.gas + 4096
+			p.stepBound = stepBoundFor(p.gas)
 			if runProgram(c, p, func(iset int, f finding) (string, *prog) {
 				return classFor(c, p, iset, f, "raw-ops="+opsKey(decodeOps(code))), nil
 			}) {
@@ -512,7 +517,7 @@ func runCreateTop() {
 			if tiny {
 				p.gas = gasTinyRaw
 			}
-			p.stepBound = p.gas + 4096
+			p.stepBound = stepBoundFor(p.gas)
 			if runProgram(c, p, func(iset int, f finding) (string, *prog) {
 				return classFor(c, p, iset, f, "create-ops="+opsKey(decodeOps(code))), nil
 			}) {
@@ -538,8 +543,8 @@ func runCfg() {
 	defer putCtx(c)
 	wrapped, start := wrap([]byte{0x46}, nil)
 	for _, p := range []*prog{
-		{family: "cfg-nil-chainid", name: "raw 46", code: []byte{0x46}, gas: gasRawBig, stepBound: gasRawBig + 4096, nilChainID: true},
-		{family: "cfg-nil-chainid", name: "CHAINID", code: wrapped, preludeEnd: start, input: inputs[2], gas: gasAmple, value: 5, stepBound: gasAmple + 4096, nilChainID: true},
+		{family: "cfg-nil-chainid", name: "raw 46", code: []byte{0x46}, gas: gasRawBig, stepBound: stepBoundFor(gasRawBig), nilChainID: true},
+		{family: "cfg-nil-chainid", name: "CHAINID", code: wrapped, preludeEnd: start, input: inputs[2], gas: gasAmple, value: 5, stepBound: stepBoundFor(gasAmple), nilChainID: true},
 	} {
 		p := p
 		atomic.AddInt64(&nPrograms, 1)
@@ -556,7 +561,7 @@ func checkTableBinding() {
 	defer putCtx(c)
 	for iset := 0; iset < 2; iset++ {
 		for b := 0; b < 256; b++ {
-			p := &prog{family: "raw", name: hex2(byte(b)), code: []byte{byte(b)}, gas: gasRawBig, stepBound: gasRawBig + 4096}
+			p := &prog{family: "raw", name: hex2(byte(b)), code: []byte{byte(b)}, gas: gasRawBig, stepBound: stepBoundFor(gasRawBig)}
 			k := runKVM(c.kw, p, iset, &c.scratch)
 			g := runRef(c.gw, p, iset, &c.scratch)
 			kdef := k.errKind != "invalid-opcode"
